@@ -189,6 +189,7 @@ func runCheck(o checkOpts) *CheckResult {
 	done := map[string]bool{}
 	seenSSA := map[string]string{}
 	var skipped []string
+	var dyn0 *dynResult
 	for _, k := range keys {
 		fc := e.db.Funcs[k]
 		fns := e.funcs[k]
@@ -228,8 +229,26 @@ func runCheck(o checkOpts) *CheckResult {
 		}
 		results = append(results, r)
 		if r.Err != "" {
-			p := writeReplay(k+"_error", map[string]interface{}{"obligation": r.Key + " (all obligations)", "function": r.Fn, "solver_reason": r.Err})
-			report(Violation{Obligation: r.Key + " verification-conditions", Replay: p, NoInput: true, Detail: r.Err})
+			body := map[string]interface{}{"obligation": r.Key + " (all obligations)", "function": r.Fn, "solver_reason": r.Err}
+			detail := r.Err
+			confirmed := false
+			if dyn0 == nil {
+				d := e.dynamicReplay(o.prop, o)
+				dyn0 = &d
+			}
+			if dyn0.Ran {
+				body["dynamic_replay_cmd"] = dyn0.Cmd
+				body["dynamic_replay_confirmed"] = dyn0.Confirmed
+				body["dynamic_replay_failing_inputs"] = dyn0.Lines
+				if dyn0.Confirmed {
+					confirmed = true
+					detail += "\nreal code fails: " + strings.Join(dyn0.Lines, "\n                 ")
+				} else {
+					detail += "\nbounded search on the real code found no failing input"
+				}
+			}
+			p := writeReplay(k+"_error", body)
+			report(Violation{Obligation: r.Key + " verification-conditions", Replay: p, NoInput: !confirmed, Detail: detail})
 			continue
 		}
 		for _, ob := range r.Obls {
@@ -269,7 +288,7 @@ func runCheck(o checkOpts) *CheckResult {
 		fmt.Fprintf(os.Stderr, "functions=%d obligations=%d generation=%.1fs discharge=%.1fs\n", len(results), len(all), tD.Sub(t0).Seconds(), time.Since(tD).Seconds())
 	}
 	nObl, nOK := 0, 0
-	var dyn *dynResult
+	dyn := dyn0
 	// vacuity: a function all of whose return paths are unreachable under its own assumptions
 	pathCover := map[string][2]int{}
 	for _, ob := range all {
